@@ -11,6 +11,7 @@ static const Part kParts[] = {
 	{"C02", "vol-giant", 150, 6000},
 	{"C03", "clm-roundtrip", 10000, 300000},
 	{"C04", "lzh-drain", 6000, 300000},
+	{"C04", "vol-giant", 90, 3000},
 	{"C05", "archive-damage", 96, 3200},
 	{"C05", "vol-giant", 150, 6000},
 	{"C06", "map-stream", 10000, 400000},
